@@ -108,9 +108,12 @@ Definition trim_blanks (s : bytes) : bytes := rev (ltrim (rev (ltrim s))).
 
 Fixpoint unescape_pipes (s : bytes) : bytes :=
   match s with
-  | 92 :: 124 :: t => 124 :: unescape_pipes t
-  | c :: t => c :: unescape_pipes t
   | [] => []
+  | c :: t =>
+    match t with
+    | p :: t' => if (c =? 92) && (p =? 124) then 124 :: unescape_pipes t' else c :: unescape_pipes t
+    | [] => [c]
+    end
   end.
 
 Definition all_blank (s : bytes) : bool := forallb is_blank s.
@@ -118,17 +121,17 @@ Definition all_blank (s : bytes) : bool := forallb is_blank s.
 (* the cells of one row line (no line terminator) *)
 Definition row_cells (line : bytes) : list bytes :=
   let l := trim_blanks line in
-  let body := match l with 124 :: r => r | _ => l end in
+  let body := match l with c :: r => if c =? 124 then r else l | [] => l end in
   let raw := split_cells body [] in
   let raw' := match rev raw with
               | last :: others => if all_blank last then rev others else raw
               | [] => raw
               end in
-  map (fun c => unescape_pipes (trim_blanks c)) raw'.
+  map (fun c => trim_blanks (unescape_pipes c)) raw'.
 
 Definition is_delim_cell (c : bytes) : bool :=
-  let c1 := match c with 58 :: r => r | _ => c end in
-  let c2 := match rev c1 with 58 :: r => rev r | _ => c1 end in
+  let c1 := match c with x :: r => if x =? 58 then r else c | [] => c end in
+  let c2 := match rev c1 with x :: r => if x =? 58 then rev r else c1 | [] => c1 end in
   match c2 with [] => false | _ => forallb (fun x => x =? 45) c2 end.
 
 Fixpoint fit (n : nat) (cells : list bytes) : list bytes :=
@@ -140,7 +143,7 @@ Fixpoint fit (n : nat) (cells : list bytes) : list bytes :=
 Fixpoint split_lines (s : bytes) (cur : bytes) : list bytes :=
   match s with
   | [] => match cur with [] => [] | _ => [rev cur] end
-  | c :: t => if c =? 10 then rev cur :: split_lines t [] else split_lines t (c :: cur)
+  | c :: t => if (c =? 10) || (c =? 13) then rev cur :: split_lines t [] else split_lines t (c :: cur)
   end.
 
 Fixpoint take_rows (lines : list bytes) : list bytes :=
